@@ -139,6 +139,8 @@ type c16Lin struct {
 	req       bool
 	ackedAt   int
 	cutAt     bool // node could not reach a quorum of voters when the read was invoked
+	nvAcks    bool // ... but voters plus NON-voters it could reach would have made up that number
+	reachDesc string
 	connEpoch int
 	err       error
 	val       int64
@@ -419,12 +421,39 @@ func (st *c16State) scan(steps int) {
 
 // ---------------------------------------------------------------- linearizable reads
 
+// reach counts, for node n's own configuration: voters, voters it can exchange
+// messages with (itself included), non-voters it can exchange messages with.
+func (st *c16State) reach(n *node.Node) (voters, vReach, nvReach int) {
+	ns, err := n.Store.Nodes()
+	if err != nil {
+		return 0, 0, 0
+	}
+	for _, sv := range ns {
+		m := opsNodeByID(st.s, sv.ID)
+		ok := sv.ID == n.ID || (m != nil && m.Up && m.RaftAddr == sv.Addr && st.s.Net.Connected(n.HostName, m.HostName))
+		if sv.Suffrage == proto.Suffrage_VOTER {
+			voters++
+			if ok {
+				vReach++
+			}
+		} else if ok {
+			nvReach++
+		}
+	}
+	return
+}
+
 func (st *c16State) startLin(n *node.Node, viaReq bool) {
 	if !n.Up {
 		return
 	}
 	synctest.Wait()
 	lr := &c16Lin{node: n.Idx, req: viaReq, ackedAt: st.acked, cutAt: !opsQuorumReachable(st.s, n), connEpoch: st.connEpoch}
+	if lr.cutAt {
+		voters, vReach, nvReach := st.reach(n)
+		lr.nvAcks = voters > 0 && vReach+nvReach >= voters/2+1
+		lr.reachDesc = fmt.Sprintf("%d voters in its configuration, %d reachable including itself, and it could still reach %d non-voter(s)", voters, vReach, nvReach)
+	}
 	st.lins = append(st.lins, lr)
 	lt := time.Duration(1+st.rng.Intn(3)) * time.Second
 	lr.task = st.s.Go(fmt.Sprintf("lin n%d req=%v", n.Idx, viaReq), func() {
@@ -464,7 +493,12 @@ func (st *c16State) judgeLin(lr *c16Lin) {
 		return
 	}
 	if lr.cutAt && lr.connEpoch == st.connEpoch {
-		c.Violate("lin-ok-cut-off", "linearizable read on n%d succeeded (value %d) although the node could not exchange messages with a quorum of voters from before its invocation until its return", lr.node, lr.val)
+		class := "lin-ok-cut-off"
+		if lr.nvAcks {
+			// distinct class: explained by acknowledgements of non-voters being counted
+			class = "lin-ok-cut-off-nonvoter-acks"
+		}
+		c.Violate(class, "linearizable read on n%d succeeded (value %d) although the node could not exchange messages with a quorum of voters from before its invocation until its return (%s)", lr.node, lr.val, lr.reachDesc)
 		return
 	}
 	if lr.val < int64(lr.ackedAt) {
